@@ -59,10 +59,22 @@ func (t *gotr) fail(n ast.Node, why string) {
 
 var gtTypes = map[string]string{
 	"int": "Int", "uint": "Nat", "bool": "Bool", "error": "Option GoErr", "*big.Int": "Int", "Op": "GOp",
-	"Program": "List GOp", "*Program": "List GOp", "Chain": "List Int", "[]*big.Int": "List Int", "[]int": "List Int",
+	"Program": "List GOp", "*Program": "List GOp", "Chain": "List Int", "[]*big.Int": "List Int", "[]int": "List Int", "[]Op": "List GOp",
 }
 
-var gtElem = map[string]string{"Program": "Op", "*Program": "Op", "Chain": "*big.Int", "[]*big.Int": "*big.Int", "[]int": "int"}
+var gtElem = map[string]string{"Program": "Op", "*Program": "Op", "Chain": "*big.Int", "[]*big.Int": "*big.Int", "[]int": "int", "[]Op": "Op"}
+
+// functions of internal/bigint translated by c19.go (AC/Gen/BigintFns.lean; pure, never panic)
+var gtBigint = map[string]struct {
+	params []string
+	result string
+}{
+	"One": {nil, "*big.Int"}, "Zero": {nil, "*big.Int"}, "Clone": {[]string{"*big.Int"}, "*big.Int"},
+	"Equal": {[]string{"*big.Int", "*big.Int"}, "bool"}, "EqualInt64": {[]string{"*big.Int", "int"}, "bool"},
+}
+
+// math/big value-producing methods (the receiver's old value is irrelevant) and observers
+var gtBigValue = map[string]bool{"Add": true, "Sub": true, "Mul": true, "Or": true}
 
 func (t *gotr) leanType(n ast.Node, goType string) string {
 	if l, ok := gtTypes[goType]; ok {
@@ -142,6 +154,22 @@ func (t *gotr) expr(e ast.Expr) (string, string) {
 		if ty == "Op" && (v.Sel.Name == "I" || v.Sel.Name == "J") {
 			return s + "." + v.Sel.Name, "int"
 		}
+	case *ast.SliceExpr:
+		a, aty := t.expr(v.X)
+		if _, ok := gtElem[aty]; ok && !v.Slice3 {
+			if v.Low == nil && v.High != nil {
+				h, hty := t.expr(v.High)
+				if hty == "int" {
+					return "(← sliceTo " + a + " " + h + ")", aty
+				}
+			}
+			if v.Low != nil && v.High == nil {
+				l, lty := t.expr(v.Low)
+				if lty == "int" {
+					return "(← sliceFrom " + a + " " + l + ")", aty
+				}
+			}
+		}
 	case *ast.IndexExpr:
 		a, aty := t.expr(v.X)
 		i, ity := t.expr(v.Index)
@@ -160,8 +188,12 @@ func (t *gotr) expr(e ast.Expr) (string, string) {
 		y, yt := t.expr(v.Y)
 		switch v.Op {
 		case token.LAND, token.LOR:
-			if strings.Contains(y, "←") {
-				t.fail(e, "right operand of a short-circuit operator may panic")
+			if strings.Contains(y, "←") && xt == "bool" && yt == "bool" {
+				// the right operand may panic: evaluate it only when the left one does not decide
+				if v.Op == token.LOR {
+					return "(← (if " + x + " then pure true else do pure " + y + "))", "bool"
+				}
+				return "(← (if " + x + " then do pure " + y + " else pure false))", "bool"
 			}
 			if xt == "bool" && yt == "bool" {
 				return "(" + x + " " + v.Op.String() + " " + y + ")", "bool"
@@ -201,6 +233,9 @@ func (t *gotr) expr(e ast.Expr) (string, string) {
 			s, ety := t.expr(el)
 			elts = append(elts, s)
 			etys = append(etys, ety)
+		}
+		if ty == "Op" && len(elts) == 0 {
+			return "(GOp.mk 0 0)", "Op"
 		}
 		if ty == "Op" && len(elts) == 2 && etys[0] == "int" && etys[1] == "int" {
 			return "(GOp.mk " + elts[0] + " " + elts[1] + ")", "Op"
@@ -250,6 +285,10 @@ func (t *gotr) call(v *ast.CallExpr) (string, string) {
 	switch f := v.Fun.(type) {
 	case *ast.Ident:
 		switch f.Name {
+		case "new":
+			if len(v.Args) == 1 && Src(t.fset, v.Args[0]) == "big.Int" {
+				return "(bNewInt 0)", "*big.Int"
+			}
 		case "len":
 			if len(v.Args) == 1 {
 				s, ty := t.expr(v.Args[0])
@@ -279,8 +318,11 @@ func (t *gotr) call(v *ast.CallExpr) (string, string) {
 				}
 			}
 		}
-		if src == "bigint.One" && len(v.Args) == 0 {
-			return "AC.Gen.Bigint.one", "*big.Int"
+		if x, ok := f.X.(*ast.Ident); ok && x.Name == "bigint" {
+			if g, ok := gtBigint[f.Sel.Name]; ok {
+				a := t.args(v, g.params)
+				return "(" + strings.TrimSpace("AC.Gen.Bigint."+lowerFirst(f.Sel.Name)+" "+strings.Join(a, " ")) + ")", g.result
+			}
 		}
 		if src == "big.NewInt" && len(v.Args) == 1 {
 			a, aty := t.expr(v.Args[0])
@@ -289,13 +331,17 @@ func (t *gotr) call(v *ast.CallExpr) (string, string) {
 			}
 		}
 		if c, ok := f.X.(*ast.CallExpr); ok && Src(t.fset, c) == "new(big.Int)" {
-			if f.Sel.Name == "Add" || f.Sel.Name == "Or" {
+			if gtBigValue[f.Sel.Name] {
 				a := t.args(v, []string{"*big.Int", "*big.Int"})
 				return "(b" + f.Sel.Name + " " + strings.Join(a, " ") + ")", "*big.Int"
 			}
 		}
 		// method of a translated type on a value
 		recv, rty := t.expr(f.X)
+		if rty == "*big.Int" && f.Sel.Name == "Cmp" {
+			a := t.args(v, []string{"*big.Int"})
+			return "(bCmp " + recv + " " + strings.Join(a, " ") + ")", "int"
+		}
 		if g, ok := t.funcs[strings.TrimPrefix(rty, "*")+"."+f.Sel.Name]; ok && !g.ptr {
 			a := t.args(v, g.params)
 			return "(← " + g.lean + " " + strings.Join(append([]string{recv}, a...), " ") + ")", resultType(g)
@@ -559,6 +605,17 @@ func (t *gotr) stmt(s ast.Stmt, ind string) string {
 			}
 		}
 	case *ast.ExprStmt:
+		// v.Add(a, b) and friends: the local v is rebound to the value
+		if c, ok := v.X.(*ast.CallExpr); ok {
+			if sel, ok := c.Fun.(*ast.SelectorExpr); ok && gtBigValue[sel.Sel.Name] {
+				if id, ok := sel.X.(*ast.Ident); ok {
+					if ty, ok := t.lookup(id.Name); ok && ty == "*big.Int" {
+						a := t.args(c, []string{"*big.Int", "*big.Int"})
+						return ind + id.Name + " := (b" + sel.Sel.Name + " " + strings.Join(a, " ") + ")\n"
+					}
+				}
+			}
+		}
 		// v.SetBit(v, i, b)
 		if c, ok := v.X.(*ast.CallExpr); ok {
 			if sel, ok := c.Fun.(*ast.SelectorExpr); ok && sel.Sel.Name == "SetBit" && len(c.Args) == 3 {
@@ -630,7 +687,9 @@ func (t *gotr) stmt(s ast.Stmt, ind string) string {
 func (t *gotr) blockOrUnit(list []ast.Stmt, ind string) string {
 	for _, s := range list {
 		if _, ok := t.isLoop(s); ok {
-			t.fail(s, "loop inside a conditional")
+			if _, ret := list[len(list)-1].(*ast.ReturnStmt); !ret || t.depth != 0 {
+				t.fail(s, "loop inside a conditional whose block does not end by returning")
+			}
 		}
 	}
 	if len(list) == 0 {
@@ -655,30 +714,19 @@ func (t *gotr) loop(s ast.Stmt, rest []ast.Stmt, ind string, tail string) string
 	t.nloop++
 	name := fmt.Sprintf("%s_loop%d", t.cur.lean, t.nloop)
 	outer := t.depth == 0
-	// variables in scope: all become parameters
-	vars := []string{}
-	for _, o := range t.order {
-		if o != forCounter(t.fset, s) {
-			vars = append(vars, o)
-		}
-	}
-	vtypes := []string{}
-	for _, v := range vars {
-		ty, _ := t.lookup(v)
-		vtypes = append(vtypes, t.leanType(s, ty))
-	}
 	var body []ast.Stmt
 	var domType, nilPat, consPat, recArg, callArg string
 	var extra []string // loop-bound variables defined for the body
-	idxName := ""
+	idxName, idxStart := "", "0"
 	counter := ""
+	converge := false
+	condS := ""
+	pre := ""
+	t.push()
 	switch v := s.(type) {
 	case *ast.RangeStmt:
 		if v.Tok != token.DEFINE {
 			t.fail(s, "range without :=")
-		}
-		if mentionsCallWithPtr(v.X) {
-			t.fail(s, "range expression")
 		}
 		x, xt := t.expr(v.X)
 		el, ok := gtElem[xt]
@@ -696,66 +744,108 @@ func (t *gotr) loop(s ast.Stmt, rest []ast.Stmt, ind string, tail string) string
 		domType = "List " + t.leanType(s, el)
 		nilPat, consPat, recArg, callArg = "[]", val+" :: _rest", "_rest", x
 		body = v.Body.List
-		t.push()
 		if val != "_" {
-			t.define(s, val, el)
-			extra = append(extra, val)
-		}
-		if idxName != "" {
-			t.define(s, idxName, "int")
-			extra = append(extra, idxName)
+			extra = append(extra, val+":"+el)
 		}
 	case *ast.ForStmt:
-		// for ; s > 0; s-- { .. } with s an unsigned local not mentioned in the body or afterwards
-		ok := v.Init == nil && v.Cond != nil && v.Post != nil
-		if ok {
-			if be, ok2 := v.Cond.(*ast.BinaryExpr); ok2 && be.Op == token.GTR && Src(t.fset, be.Y) == "0" {
-				if id, ok3 := be.X.(*ast.Ident); ok3 {
-					counter = id.Name
+		body = v.Body.List
+		domType = "Nat"
+		nilPat, consPat, recArg = "0", "_n + 1", "_n"
+		init, _ := v.Init.(*ast.AssignStmt)
+		cond, _ := v.Cond.(*ast.BinaryExpr)
+		post, _ := v.Post.(*ast.IncDecStmt)
+		switch {
+		case v.Init == nil && cond != nil && cond.Op == token.GTR && Src(t.fset, cond.Y) == "0" && post != nil && post.Tok == token.DEC && Src(t.fset, post.X) == Src(t.fset, cond.X):
+			// for ; s > 0; s-- { .. } with s an unsigned local not mentioned in the body or afterwards
+			counter = Src(t.fset, cond.X)
+			if ty, _ := t.lookup(counter); ty != "uint" {
+				t.fail(s, "countdown over a signed variable")
+			}
+			if mentions(v.Body, counter) || mentions(&ast.BlockStmt{List: rest}, counter) {
+				t.fail(s, "loop counter used outside the loop header")
+			}
+			callArg = counter
+		case init != nil && init.Tok == token.DEFINE && len(init.Lhs) == 1 && len(init.Rhs) == 1 && cond != nil && cond.Op == token.LSS && Src(t.fset, cond.X) == Src(t.fset, init.Lhs[0]) && post != nil && post.Tok == token.INC && Src(t.fset, post.X) == Src(t.fset, init.Lhs[0]):
+			// for i := A; i < B; i++ { .. }: i is not assigned in the body and B does not change
+			idxName = Src(t.fset, init.Lhs[0])
+			a, aty := t.expr(init.Rhs[0])
+			b, bty := t.expr(cond.Y)
+			if aty != "int" || bty != "int" || strings.Contains(a, "←") || strings.Contains(b, "←") {
+				t.fail(s, "bounds of a counting loop")
+			}
+			for _, as := range t.assigned(body) {
+				if mentions(cond.Y, as) {
+					t.fail(s, "bound of a counting loop is assigned in its body")
 				}
 			}
-			if pd, ok2 := v.Post.(*ast.IncDecStmt); !ok2 || pd.Tok != token.DEC || Src(t.fset, pd.X) != counter {
-				counter = ""
+			idxStart = a
+			callArg = "(Int.toNat (" + b + " - " + a + "))"
+		case init != nil && init.Tok == token.DEFINE && len(init.Lhs) == 2 && len(init.Rhs) == 2 && cond != nil && cond.Op == token.LEQ && Src(t.fset, cond.X) == Src(t.fset, init.Lhs[0]) && Src(t.fset, cond.Y) == Src(t.fset, init.Lhs[1]) && v.Post == nil:
+			// for l, r := A, B; l <= r; { .. }: run with fuel r-l+1 and the condition re-checked;
+			// running out of fuel with the condition still true yields `goDiverge`
+			converge = true
+			l, r := Src(t.fset, init.Lhs[0]), Src(t.fset, init.Lhs[1])
+			a, aty := t.expr(init.Rhs[0])
+			b, bty := t.expr(init.Rhs[1])
+			if aty != "int" || bty != "int" {
+				t.fail(s, "bounds of a converging loop")
 			}
-		}
-		if ty, _ := t.lookup(counter); counter == "" || ty != "uint" {
+			t.define(s, l, "int")
+			t.define(s, r, "int")
+			pre = ind + "let mut " + l + " : Int := " + a + "\n" + ind + "let mut " + r + " : Int := " + b + "\n"
+			callArg = "(Int.toNat ((" + r + " - " + l + ") + 1))"
+			condS, _ = t.expr(v.Cond)
+			for _, st := range rest {
+				if _, isL := t.isLoop(st); isL {
+					t.fail(s, "loop after a converging loop")
+				}
+			}
+		default:
 			t.fail(s, "unsupported for loop")
+			t.pop()
 			return ind + "sorryUnsupported\n"
 		}
-		if mentions(v.Body, counter) || mentions(&ast.BlockStmt{List: rest}, counter) {
-			t.fail(s, "loop counter used outside the loop header")
-		}
-		domType = "Nat"
-		nilPat, consPat, recArg, callArg = "0", "_n + 1", "_n", counter
-		body = v.Body.List
-		t.push()
 	}
-	saveLoopVars := loopVars
-	loopVars = append(append([]string{}, loopVars...), extra...)
-	assigned := t.assigned(body)
-	if counter != "" {
-		// the counter itself is consumed by the recursion
-		keep := assigned[:0:0]
-		for _, a := range assigned {
-			if a != counter {
-				keep = append(keep, a)
-			}
+	// variables in scope: all become parameters
+	vars := []string{}
+	for _, o := range t.order {
+		if o != counter {
+			vars = append(vars, o)
 		}
-		assigned = keep
+	}
+	vtypes := []string{}
+	for _, v := range vars {
+		ty, _ := t.lookup(v)
+		vtypes = append(vtypes, t.leanType(s, ty))
+	}
+	t.push()
+	saveLoopVars := loopVars
+	loopVars = append([]string{}, loopVars...)
+	for _, e := range extra {
+		p := strings.SplitN(e, ":", 2)
+		t.define(s, p[0], p[1])
+		loopVars = append(loopVars, p[0])
+	}
+	if idxName != "" {
+		t.define(s, idxName, "int")
+		loopVars = append(loopVars, idxName)
+	}
+	assigned := []string{}
+	for _, a := range t.assigned(body) {
+		if a != counter {
+			assigned = append(assigned, a)
+		}
 	}
 	// result type
-	resType := ""
+	rts := []string{}
 	if outer {
-		rts := []string{}
 		if t.cur.ptr {
 			rts = append(rts, "List GOp")
 		}
 		for _, r := range t.cur.results {
 			rts = append(rts, t.leanType(s, r))
 		}
-		resType = strings.Join(rts, " × ")
 	} else {
-		rts := []string{}
 		for _, a := range assigned {
 			ty, _ := t.lookup(a)
 			rts = append(rts, t.leanType(s, ty))
@@ -763,8 +853,8 @@ func (t *gotr) loop(s ast.Stmt, rest []ast.Stmt, ind string, tail string) string
 		if len(rts) == 0 {
 			rts = []string{"Unit"}
 		}
-		resType = strings.Join(rts, " × ")
 	}
+	resType := strings.Join(rts, " × ")
 	var d strings.Builder
 	sig := []string{domType}
 	if idxName != "" {
@@ -779,8 +869,6 @@ func (t *gotr) loop(s ast.Stmt, rest []ast.Stmt, ind string, tail string) string
 		}
 		return strings.Join(append(p, vars...), ", ")
 	}
-	// base case
-	fmt.Fprintf(&d, "  | %s => do\n", pats(nilPat, "_"))
 	muts := func() string {
 		o := ""
 		for i, v := range vars {
@@ -790,7 +878,6 @@ func (t *gotr) loop(s ast.Stmt, rest []ast.Stmt, ind string, tail string) string
 		}
 		return o
 	}
-	d.WriteString(muts())
 	tuple := func(xs []string) string {
 		if len(xs) == 0 {
 			return "()"
@@ -800,48 +887,70 @@ func (t *gotr) loop(s ast.Stmt, rest []ast.Stmt, ind string, tail string) string
 		}
 		return "(" + strings.Join(xs, ", ") + ")"
 	}
-	// the body is translated first into a buffer (it may emit nested loop functions before ours)
+	// the body is translated first (it may emit nested loop functions before ours)
+	bind := "    "
+	if converge {
+		bind = "      "
+	}
 	t.depth++
 	recCall := name + " " + recArg
 	if idxName != "" {
 		recCall += " (" + idxName + " + 1)"
 	}
 	recCall += " " + strings.Join(vars, " ")
-	bodyS := t.block(body, "    ", recCall)
+	bodyS := t.block(body, bind, recCall)
 	t.depth--
 	t.pop()
 	loopVars = saveLoopVars
+	// what follows the loop: the rest of the function (outermost loop) or the assigned variables
+	restS := ""
 	if outer {
-		// the rest of the function lives in the base case
 		if len(rest) == 0 && tail == "" {
 			t.fail(s, "function falls off its end after a loop")
 		}
-		d.WriteString(t.block(rest, "    ", tail))
+		restS = t.block(rest, bind, tail)
 	} else {
-		d.WriteString("    return " + tuple(assigned) + "\n")
+		restS = bind + "return " + tuple(assigned) + "\n"
+	}
+	idxPat := "_"
+	if converge || idxName != "" && (mentions(&ast.BlockStmt{List: rest}, idxName)) {
+		idxPat = idxName
+	}
+	fmt.Fprintf(&d, "  | %s => do\n", pats(nilPat, idxPat))
+	d.WriteString(muts())
+	if converge {
+		d.WriteString("    if " + condS + " then\n      goDiverge\n    else\n" + restS)
+	} else {
+		d.WriteString(restS)
 	}
 	fmt.Fprintf(&d, "  | %s => do\n", pats(consPat, idxName))
 	d.WriteString(muts())
-	d.WriteString(bodyS)
+	if converge {
+		d.WriteString("    if " + condS + " then\n" + bodyS + "    else\n" + restS)
+	} else {
+		d.WriteString(bodyS)
+	}
 	d.WriteString("\n")
 	t.out.WriteString(d.String())
 	// call site
 	call := name + " " + callArg
 	if idxName != "" {
-		call += " 0"
+		call += " " + idxStart
 	}
 	call += " " + strings.Join(vars, " ")
+	t.pop()
 	if outer {
-		return ind + call + "\n"
+		// `return`: the loop may sit inside a conditional, and leaving it leaves the function
+		return pre + ind + "return (← " + call + ")\n"
 	}
-	out := ""
+	out := pre
 	switch len(assigned) {
 	case 0:
-		out = ind + "let _ ← " + call + "\n"
+		out += ind + "let _ ← " + call + "\n"
 	case 1:
-		out = ind + assigned[0] + " ← " + call + "\n"
+		out += ind + assigned[0] + " ← " + call + "\n"
 	default:
-		out = ind + tuple(assigned) + " ← " + call + "\n"
+		out += ind + tuple(assigned) + " ← " + call + "\n"
 	}
 	return out + t.block(rest, ind, tail)
 }
